@@ -154,6 +154,45 @@ pub fn c14_wg(ctx: &mut Ctx, log: &mut Log, im: &mut Impl, or: &mut Oracle) {
         }
         or.eval((ci, n), true); or.count("waitgroup_histories");
     }
+    // "after the last token has been dropped — never earlier", seen from INSIDE the completion wake-up: a waker that, when woken, asks a
+    // clone of the runner for a token.  All slots were taken, so the request is granted at that instant iff the token whose drop causes
+    // the wake-up has already given back its connection slot, i.e. is really gone.  (Oracle only: plain Rust on the crate, no line protocol.)
+    {
+        struct ProbeWaker { runner: fastcgi_server::async_io::Runner, seen: std::sync::Mutex<Vec<bool>> }
+        impl std::task::Wake for ProbeWaker {
+            fn wake(self: Arc<Self>) { self.wake_by_ref() }
+            fn wake_by_ref(self: &Arc<Self>) {
+                let f = self.runner.get_token(); futures_util::pin_mut!(f);
+                let w = futures_util::task::noop_waker(); let mut cx = Context::from_waker(&w);
+                let granted = match f.poll(&mut cx) { Poll::Ready(t) => { drop(t); true } Poll::Pending => false };
+                self.seen.lock().unwrap().push(granted);
+            }
+        }
+        for ci in 0..ctx.n(40, 400) {
+            let n = 1 + rng.usize_below(4);
+            let runner = config(8192, n).async_runner();
+            let nw = futures_util::task::noop_waker(); let mut ncx = Context::from_waker(&nw);
+            let mut toks = vec![];
+            for _ in 0..n { let f = runner.get_token(); futures_util::pin_mut!(f); if let Poll::Ready(t) = f.poll(&mut ncx) { toks.push(t); } }
+            if toks.len() != n { or.fail("could not take all tokens of a fresh runner".into(), "# case flat-oracle".into(), "C14:probe-setup".into()); continue; }
+            let pw = Arc::new(ProbeWaker { runner: runner.clone(), seen: Default::default() });
+            let waker = std::task::Waker::from(pw.clone());
+            let mut fut: std::pin::Pin<Box<dyn Future<Output = ()>>> = Box::pin(runner.shutdown());
+            let mut cx = Context::from_waker(&waker);
+            if fut.as_mut().poll(&mut cx).is_ready() { or.fail(format!("shutdown future completed while {n} token(s) are alive"), "# case flat-oracle".into(), "C14:early-completion".into()); continue; }
+            let unwind_last = rng.chance(1, 3);
+            while toks.len() > 1 { let k = rng.usize_below(toks.len()); drop(toks.swap_remove(k)); }
+            let before = pw.seen.lock().unwrap().len();
+            let last = toks.pop().unwrap();
+            if unwind_last { let _ = catch(move || -> () { let _held = last; panic!("unwinding drop") }); } else { drop(last); }
+            let seen = pw.seen.lock().unwrap().clone();
+            let done = fut.as_mut().poll(&mut cx).is_ready();
+            if !done { or.fail("shutdown future still pending after the last token was dropped".into(), "# case flat-oracle".into(), "C14:not-completing".into()); }
+            if seen.len() <= before { or.fail("the last token was dropped after a pending poll, but the shutdown task was not woken".into(), "# case flat-oracle".into(), "C14:lost-wake".into()); }
+            else if seen[before..].iter().any(|g| !*g) { or.fail(format!("the shutdown task was woken for the completion (runner with {n} slot(s), all taken; last token dropped{}) while that token still occupied its connection slot: a token request made inside the wake-up was not granted — the shutdown completes before the last token is gone", if unwind_last { " during unwinding" } else { "" }), "# case flat-oracle".into(), "C14:completion-before-slot-release".into()); }
+            or.eval((ci, "probe"), true); or.count("completion_wakeups_probed");
+        }
+    }
     // real threads: the last drop racing with a poll (failing-input search; the step-level interleavings are covered by the theorem)
     // One persistent dropper thread; per round the two threads are released together and their relative timing is swept
     // (spin counts), so that the FIRST poll of a fresh shutdown future overlaps the drop of the last token.  A first poll
